@@ -126,7 +126,7 @@ def shape(q):
         return "%s(%s,%s)" % (op, shape(q["a"]), shape(q["b"]))
     if op in ("not", "const", "spanfirst"):
         return "%s(%s)" % (op, shape(q["q"]))
-    if op in ("spanor", "spannear2"):
+    if op in ("spanor", "spannear2", "sequence"):
         return "%s(%s)" % (op, ",".join(shape(k) for k in q["kids"]))
     if op.startswith("span"):
         return "%s(%s,%s)" % (op, shape(q["a"]), shape(q["b"]))
